@@ -40,6 +40,9 @@ Shapes == [
   alias    |-> << C(<<"s1">>), Sk(<<"o1">>, <<>>, <<>>, <<>>, TRUE), C(<<"o2">>) >>,
   group    |-> << C(<<"s1">>), C(<<"s2">>), Sk(<<"o1", "o2">>, <<>>, <<>>, <<>>, TRUE), Sk(<<"s1">>, <<"o3">>, <<>>, <<>>, FALSE) >>,
   aliasoo  |-> << C(<<"s1">>), Sk(<<>>, <<>>, <<"o1">>, <<>>, TRUE), Sk(<<"s2">>, <<>>, <<"o2">>, <<>>, FALSE) >>,
+  \* a phony alias with an order-only input, consumed as a regular input (the alias forwards no time from it)
+  aliasooim |-> << C(<<"s1">>), Sk(<<>>, <<>>, <<"o1">>, <<>>, TRUE), Sk(<<"s2">>, <<"o2">>, <<>>, <<>>, FALSE) >>,
+  aliasooex |-> << C(<<"s1">>), Sk(<<"s2">>, <<>>, <<"o1">>, <<>>, TRUE), C(<<"o2">>) >>,
   valid    |-> << C(<<"s1">>), Sk(<<"s2">>, <<>>, <<>>, <<"o1">>, FALSE) >>,
   validrev |-> << Sk(<<"s1">>, <<>>, <<>>, <<"o2">>, FALSE), C(<<"o1">>) >>,
   validch  |-> << C(<<"s1">>), Sk(<<"o1">>, <<>>, <<>>, <<"o3">>, FALSE), C(<<"s2">>) >>,
@@ -159,7 +162,7 @@ GraphsS(shape, profs, K) ==
   IN { Graph([i \in 1..n |-> Mk(i, sk[i], IF sk[i].phony THEN "plain" ELSE pa[i])]) : pa \in PickF(K, n, profs) }
 
 BaseProfiles == {"plain", "restat", "gen", "two", "rsp", "depfile", "gcc", "msvc", "gccgen", "restatgcc", "iout"}
-SmallShapes == {"single", "chain2", "chain3", "fanin", "fanout", "implicit", "oonly", "mixed", "indep", "alias", "aliasoo", "valid", "validrev", "validch"}
+SmallShapes == {"single", "chain2", "chain3", "fanin", "fanout", "implicit", "oonly", "mixed", "indep", "alias", "aliasoo", "aliasooim", "aliasooex", "valid", "validrev", "validch"}
 
 \* incremental-build family (C01, C02, C03, C10): shape x profile assignment x single change
 FamInc(K, CH) ==
@@ -472,6 +475,8 @@ FamClean(K, CH) ==
                   n \in {2, 3}, c \in Pick(CH, CleanOps(gr))}
           \cup {Scn(gr, <<Build(Roots(gr), 2, 1), [op |-> "setstmts", stmts |-> ToGcc(gr)], c, Build(Roots(gr), 2, 1), Build(Roots(gr), 2, 1)>>) :
                   c \in Pick(CH, CleanOps(gr))}
+          \* cleandead on the unchanged manifest: nothing is dead, dyndep-declared outputs included
+          \cup {Scn(gr, <<Build(Roots(gr), 2, 1), CleanOp("dead", <<>>, FALSE, n), Build(Roots(gr), 2, 1)>>) : n \in BOOLEAN}
           \cup {Scn(gr, <<Build(Roots(gr), 2, 1), [op |-> "setstmts", stmts |-> DropStmt(gr, k)], CleanOp("dead", <<>>, FALSE, n),
                            Build(<<>>, 2, 1)>>) : k \in Droppable(gr), n \in BOOLEAN} :
           gr \in CleanGraphs(K) }
